@@ -660,6 +660,10 @@ func (lp *linProver) atomFacts(a ssa.Value, cx *linCtx) []linFact {
 				if k, ok := constInt(x.Y); ok && k > 0 {
 					ge(linConst(0), "x/c")
 					le(lp.lin(x.X, cx), "x/c<=x")
+				} else if !ok && cx.depth < 2 && lp.proveAt(x, linConst(1), lp.lin(x.Y, cx), cx.depth+1, cx) {
+					// x / y with x >= 0 and y >= 1
+					ge(linConst(0), "x/y")
+					le(lp.lin(x.X, cx), "x/y<=x")
 				}
 			}
 		}
@@ -915,7 +919,10 @@ func (lp *linProver) proveGoal(goal lin, cx *linCtx, split int) bool {
 		// case-split: that would need induction
 		carried := false
 		for _, e := range ph.Edges {
-			if deps(e, depOpts{throughCalls: true})[ph] {
+			if resolve(e) == ssa.Value(ph) {
+				continue
+			}
+			if _, direct := lp.lin(e, cx).c[ph]; direct {
 				carried = true
 			}
 		}
@@ -953,6 +960,48 @@ func (lp *linProver) proveGoal(goal lin, cx *linCtx, split int) bool {
 			// re-express the goal under the substitution
 			g2 := lp.resubst(goal, cx2)
 			if !lp.proveGoal(g2, cx2, split+1) {
+				all = false
+				break
+			}
+		}
+		if all {
+			return true
+		}
+	}
+	// min/max builtins: the result equals one of the arguments; for min the
+	// chosen argument is <= the others (for max: >=)
+	for a := range goal.c {
+		call, ok := a.(*ssa.Call)
+		if !ok {
+			continue
+		}
+		b, ok := call.Call.Value.(*ssa.Builtin)
+		if !ok || (b.Name() != "min" && b.Name() != "max") || len(call.Call.Args) > 4 {
+			continue
+		}
+		all := true
+		for i, arg := range call.Call.Args {
+			cx2 := &linCtx{at: cx.at, depth: cx.depth, subst: map[ssa.Value]ssa.Value{}}
+			for k, v := range cx.subst {
+				cx2.subst[k] = v
+			}
+			cx2.subst[call] = arg
+			var extra []linFact
+			extra = append(extra, cx.extra...)
+			A := lp.lin(arg, cx2)
+			for j, other := range call.Call.Args {
+				if j == i {
+					continue
+				}
+				O := lp.lin(other, cx2)
+				if b.Name() == "min" {
+					extra = append(extra, linFact{A.sub(O), "min picks the smallest"})
+				} else {
+					extra = append(extra, linFact{O.sub(A), "max picks the largest"})
+				}
+			}
+			cx2.extra = extra
+			if !lp.proveGoal(lp.resubst(goal, cx2), cx2, split+1) {
 				all = false
 				break
 			}
